@@ -1,6 +1,7 @@
 package concur
 
 import (
+	"reflect"
 	"bytes"
 	"encoding/json"
 	"fmt"
@@ -14,6 +15,7 @@ import (
 	"github.com/anishathalye/porcupine"
 	"github.com/protobom/protobom/pkg/formats"
 	"github.com/protobom/protobom/pkg/native"
+	"github.com/protobom/protobom/pkg/native/unserializers"
 	"github.com/protobom/protobom/pkg/reader"
 	"github.com/protobom/protobom/pkg/sbom"
 	"github.com/protobom/protobom/pkg/storage"
@@ -386,6 +388,26 @@ func writeOutcome(s *sink, err error) string {
 	return "ok:" + gen.HashHex(c)
 }
 
+// identifyUnserializer names a driver object: a fake by its tag, a built-in by pointer identity with what
+// the registry holds after the join, otherwise by its type and (CycloneDX) its version field.
+func (env *c17env) identifyUnserializer(u native.Unserializer) string {
+	if f, ok := u.(*fakeUnserializer); ok {
+		return f.tag
+	}
+	if t, ok := env.rPtr[u]; ok {
+		return t
+	}
+	switch u.(type) {
+	case *unserializers.SPDX23:
+		return "builtin:" + string(formats.SPDX23JSON)
+	case *unserializers.CDX:
+		if v := reflect.ValueOf(u).Elem().FieldByName("version"); v.IsValid() && v.Kind() == reflect.String {
+			return "builtin:application/vnd.cyclonedx+json;version=" + v.String()
+		}
+	}
+	return fmt.Sprintf("unknown:%T", u)
+}
+
 func identifySerializer(s native.Serializer) string {
 	if s == nil {
 		return "nil"
@@ -491,19 +513,27 @@ func execC17(sc *core.Scenario) *core.Result {
 	for _, f := range pi.W {
 		env.initW[f] = "builtin:" + f
 	}
+	// The reader's registry is NOT touched before the concurrent phase (a look-up here would complete any
+	// first-use initialisation alone): the built-in driver objects are collected after the join.
 	builtinU := map[string]native.Unserializer{}
-	for _, f := range pi.R {
-		u, err := reader.GetFormatUnserializer(formats.Format(f))
-		if err != nil || u == nil {
-			res.Harness = "probe says " + f + " is registered for reading but this process disagrees"
-			return res
-		}
-		if _, dup := env.rPtr[u]; !dup {
-			env.rPtr[u] = "builtin:" + f
-		}
-		builtinU[f] = u
-	}
 	env.builtinU = builtinU
+	collectBuiltins := func() {
+		for _, f := range pi.R {
+			u, err := reader.GetFormatUnserializer(formats.Format(f))
+			if _, fake := u.(*fakeUnserializer); err != nil || u == nil || fake {
+				// replaced or removed during the run: a fresh object of the same kind serves as reference
+				ff := formats.Format(f)
+				if ff.Type() == formats.CDXFORMAT {
+					u = unserializers.NewCDX(ff.Version(), formats.JSON)
+				} else {
+					u = unserializers.NewSPDX23()
+				}
+			} else if _, dup := env.rPtr[u]; !dup {
+				env.rPtr[u] = "builtin:" + f
+			}
+			builtinU[f] = u
+		}
+	}
 	// The reference results (what each built-in driver returns for each stream, what detection returns)
 	// are computed AFTER the concurrent phase, from the driver objects captured here: computing them
 	// first would warm every lazily filled cache with exactly the inputs of the run, and the
@@ -565,12 +595,18 @@ func execC17(sc *core.Scenario) *core.Result {
 	core.AttachRaces(res, nraces)
 	abortViolations(res, sr, recs, "abort")
 
-	// post-join identification of serializers returned by WGet
+	// post-join identification of the drivers returned by WGet and RGet
+	collectBuiltins()
 	for _, list := range recs {
 		for _, r := range list {
 			if r.Op.K == "WGet" && r.Done && r.Abort == "" {
 				if s, ok := r.aux.(native.Serializer); ok {
 					r.Out = "drv:" + identifySerializer(s)
+				}
+			}
+			if r.Op.K == "RGet" && r.Done && r.Abort == "" {
+				if u, ok := r.aux.(native.Unserializer); ok {
+					r.Out = "drv:" + env.identifyUnserializer(u)
 				}
 			}
 		}
@@ -667,13 +703,8 @@ func (env *c17env) mkOp(rec *opRec) func() string {
 			case u == nil:
 				return "nilnil"
 			}
-			if f, ok := u.(*fakeUnserializer); ok {
-				return "drv:" + f.tag
-			}
-			if t, ok := env.rPtr[u]; ok {
-				return "drv:" + t
-			}
-			return fmt.Sprintf("drv:unknown:%T", u)
+			rec.aux = u // identified after the join
+			return "drv:?"
 		}
 	case "WReg":
 		fs := &fakeSerializer{tag: op.T}
